@@ -197,6 +197,13 @@ def _classes(case):
     return out
 
 
+def _int_first(case, k):
+    """First call of a pristine process with whole-number coordinates passed as Python ints (or numpy float64 scalars)."""
+    if k % 3 == 2:
+        return case
+    return dict(case, X=[float(round(v)) for v in case["X"]], num=("int" if k % 3 == 0 else "np64"))
+
+
 SUBCHECKS = [
     SubCheck("formula_shipped_sets", check_formula, enumerate=enumerate_shipped, nontrivial=_nt, classes=_classes,
              shards_quick=2, shards_thorough=8, exhaustive="both",
@@ -206,6 +213,7 @@ SUBCHECKS = [
              rule="all shipped sets: T then -T within 0.01 mm (2 mm for AGD66/84 sets) and within 2 um of the exact composition"),
     SubCheck("formula_generated", check_formula, strategy=cases, nontrivial=_nt, classes=_classes,
              quick=2500, thorough=250000, shards_quick=3, shards_thorough=12, seq_groups=[["trans"], ["X", "num"]],
+             fresh=(12, 96, 4), fresh_first=_int_first,
              rule="random points x (shipped | random sets): conform7 vs exact formula, 1 micrometre"),
     SubCheck("reverse_generated", check_reverse, strategy=cases, nontrivial=_nt, classes=_classes,
              quick=3000, thorough=300000, shards_quick=3, shards_thorough=12,
